@@ -77,8 +77,9 @@ pub fn prog_oracle(data: &[u8]) -> Option<(String, String)> {
     let ctx = ctx();
     let mut d = Dec::new(data);
     let mut cfg = GenCfg::full(80);
-    cfg.focus = [Focus::None, Focus::Generics, Focus::Closures, Focus::Effects, Focus::Scopes]
-        [data.first().copied().unwrap_or(0) as usize % 5];
+    cfg.focus = [Focus::None, Focus::Generics, Focus::Closures, Focus::Effects, Focus::Scopes, Focus::Traits]
+        [data.first().copied().unwrap_or(0) as usize % 6];
+    cfg.traits = cfg.focus == Focus::Traits || data.get(1).copied().unwrap_or(0) % 3 == 0;
     let p = gen_program(&mut d, cfg, ctx);
     let text = render(&p);
     match goml::compile_single(ctx, &text) {
